@@ -10,6 +10,10 @@ CONSTANTS NCh          \* number of randomly chosen header variants per DAG
 \* ---- terms: [t |-> kind, b |-> bits, k |-> <<sub terms>>, m |-> mask (pruned only)]
 Ord(b, k) == [t |-> "ord", b |-> b, k |-> k, m |-> 0]
 Pr(m)     == [t |-> "pr",  b |-> <<>>, k |-> <<>>, m |-> m]
+\* a pruned branch with mask m whose every stored depth is d (the depth bound of the cells above it)
+PrD(m, d) == [t |-> "prd", b |-> <<>>, k |-> <<>>, m |-> m, d |-> d]
+\* a pruned branch with mask m that stands for the level-0 term x: every stored hash is x's hash, every stored depth x's depth
+PrOf(m, x) == [t |-> "prof", b |-> <<>>, k |-> <<>>, m |-> m, of |-> x]
 Lib       == [t |-> "lib", b |-> <<>>, k |-> <<>>, m |-> 0]
 MP(x)     == [t |-> "mp",  b |-> <<>>, k |-> <<x>>, m |-> 0]
 MU(x, y)  == [t |-> "mu",  b |-> <<>>, k |-> <<x, y>>, m |-> 0]
@@ -35,6 +39,13 @@ Flat(t) ==
         CASE t.t = "ord" -> [b |-> t.b, x |-> Ordinary, r |-> refs,
                              m |-> FoldLeft(LAMBDA a, i : OrM(a, kidMask(i)), 0, [i \in 1..Len(subs) |-> i])]
           [] t.t = "pr"  -> [b |-> BytesToBits(PrData(t.m)), x |-> Pruned, r |-> <<>>, m |-> t.m]
+          [] t.t = "prd" -> [b |-> BytesToBits(<<1, t.m>> \o FoldLeft(LAMBDA a, i : a \o Rep(32, 16 * i + t.m), <<>>, [i \in 1..Pop(t.m) |-> i])
+                                                          \o FoldLeft(LAMBDA a, i : a \o U16(t.d), <<>>, [i \in 1..Pop(t.m) |-> i])),
+                             x |-> Pruned, r |-> <<>>, m |-> t.m]
+          [] t.t = "prof" -> LET of == InfoTable(Flat(t.of))[1] IN
+                            [b |-> BytesToBits(<<1, t.m>> \o FoldLeft(LAMBDA a, i : a \o of.h[1], <<>>, [i \in 1..Pop(t.m) |-> i])
+                                                          \o FoldLeft(LAMBDA a, i : a \o U16(of.d[1]), <<>>, [i \in 1..Pop(t.m) |-> i])),
+                             x |-> Pruned, r |-> <<>>, m |-> t.m]
           [] t.t = "lib" -> [b |-> BytesToBits(<<2>> \o Rep(32, 171)), x |-> Library, r |-> <<>>, m |-> 0]
           [] t.t = "mp"  -> [b |-> BytesToBits(<<3>> \o kidInfo(1).h[1] \o U16(kidInfo(1).d[1])), x |-> MerkleProof,
                              r |-> refs, m |-> kidMask(1) \div 2]
@@ -56,7 +67,14 @@ L2 == {Ord(<<1>>, <<x>>) : x \in L1} \cup {MP(x) : x \in L1}
       \cup {MU(L1Seq[p[1]], L1Seq[p[2]]) : p \in {q \in (1..Len(L1Seq)) \X (1..Len(L1Seq)) : (q[1] * 13 + q[2]) % 41 = 0}}
       \cup {Ord(<<>>, <<L1Seq[p[1]], L1Seq[p[2]]>>) : p \in {q \in (1..Len(L1Seq)) \X (1..Len(L1Seq)) : (q[1] * 11 + q[2]) % 37 = 0}}
 L3 == {MP(MP(x)) : x \in {Ord(<<1>>, <<Pr(m)>>) : m \in 1..7}} \cup {Ord(<<>>, <<MP(Ord(<<>>, <<Pr(m)>>)), Pr(n)>>) : m \in {1, 3, 7}, n \in {2, 4, 6}}
-Terms == Leaves \cup L1 \cup L2 \cup L3
+\* the depth bound level by level: cells above a pruned branch of stored depth 1023 (exist) / 1024 (do not: too deep below their level)
+Deep == {Ord(<<1>>, <<PrD(m, d)>>) : m \in {1, 2, 5, 7}, d \in {1023, 1024}}
+        \cup {MP(Ord(<<>>, <<PrD(1, d)>>)) : d \in {1023, 1024}}
+        \cup {Ord(<<0>>, <<Ord(<<1>>, <<PrD(3, d)>>), Lib>>) : d \in {1023, 1024, 65535}}
+\* a pruned branch next to the cell it stands for (equal lower hashes, different cells), every mask
+Originals == {Ord(<<1,0,1>>, <<>>), Ord(<<>>, <<Ord(<<1>>, <<>>)>>)}
+Beside == {Ord(<<1>>, <<PrOf(m, x), x>>) : m \in 1..7, x \in Originals} \cup {Ord(<<>>, <<x, PrOf(m, x), PrOf(m, x)>>) : m \in {2, 5, 6}, x \in Originals}
+Terms == Leaves \cup L1 \cup L2 \cup L3 \cup Deep \cup Beside
 
 AllChoices == {[magic |-> mg, idx |-> i, crc |-> c, cache |-> ca, size |-> sz, ob |-> o, hashes |-> h] :
                  mg \in {"generic", "idx", "idxcrc"}, i \in BOOLEAN, c \in BOOLEAN, ca \in BOOLEAN,
@@ -70,7 +88,7 @@ Vector(t, c) ==
       cc == [c EXCEPT !.ob = Min1(approx) + c.ob]
       B == Write(T, <<1>>, cc)
   IN [boc |-> BytesToHex(B), hash |-> BytesToHex(ReprHash(I[1])), level |-> LevelOf(T[1].m),
-      tree |-> TreeStr(T, 1), wf |-> WellFormed(T), kind |-> t.t, magic |-> c.magic, hashes |-> c.hashes,
+      tree |-> TreeStr(T, 1), wf |-> ShapeOK(T), deep |-> ~WellFormed(T), kind |-> t.t, magic |-> c.magic, hashes |-> c.hashes,
       selfcheck |-> (Parse(B).ok /\ Parse(B).T = T)]
 
 Init == /\ term \in Terms
